@@ -245,6 +245,36 @@ pub fn queries(quick: bool) -> Vec<PolyQ> {
           }
         }
       }
+    }
+  }
+  // mid / large depths: polygons a few cells across, around generic (non-border) centres
+  let deep: &[u8] = if quick { &[11, 17, 24] } else { &[10, 11, 13, 14, 17, 20, 24, 27, 29] };
+  for &d in deep {
+    let cell = PI / 3.0f64.sqrt() / (1u64 << d) as f64; // ~ cell side
+    for &(lon, lat) in &[(0.1234, 0.2345), (2.7, -0.3), (3.3, 0.70), (4.4, -0.74), (5.49, 0.0001), (1.0, 1.2), (0.3, -1.1), (PI / 2.0, 0.3)] {
+      for &k in &[1.5, 6.0, 23.0] {
+        let r = k * cell;
+        for &n in &[3usize, 5, 8] {
+          for &(inner, convex) in &[(1.0, true), (0.5, false)] {
+            if !convex && n % 2 == 1 {
+              continue;
+            }
+            for &rev in &[false, true] {
+              let vertices = make_polygon(lon, lat, n, r, inner, 0.37, rev);
+              for &exact in &[false, true] {
+                v.push(PolyQ { depth: d, exact, vertices: vertices.clone(), lon, lat, radius: r, convex });
+              }
+            }
+          }
+        }
+      }
+    }
+  }
+  for &(lon, lat) in &poly_centres(quick) {
+    for &r in &radii {
+      if lat.abs() + r > HALF_PI - 0.02 {
+        continue;
+      }
       // elongated convex shapes (a thin triangle and a kite), every cyclic order of the vertices
       // and both windings: the first vertex is in turn the far apex, a base vertex, ...
       for &rot in &[0.2, 1.9, 4.0] {
